@@ -878,7 +878,7 @@ def core_usage(case, dens):
             return True
         _, inplace, _ = bin_ref(case["op"], {})
         wrapped = not inplace and (AND_WRAPPED or case["op"] not in ("__and__", "__rand__"))
-        kinds_ok = skind != "lazy"
+        kinds_ok = True        # lazy stacks too since the repairs D50-D51 (each member meets its slice of the operand)
         if o["k"] == "t":
             # a batch-shaped / broadcastable tensor is an operand kind the property names (out-of-place, non-lazy)
             return wrapped and kinds_ok and bshape(case["self"]["bs"], o["shape"]) is not None
@@ -1006,33 +1006,8 @@ def run_case(case):
 
 
 def known_pattern(case, sig):
-    """decidable input pattern of the defects recorded in findings.d/C09.json (computed from the case and the kind of
-    check that failed, never from the values): a failure outside every pattern is a new violation.
-    The patterns of the defects repaired by fixes/C09/*.diff (D18, D40-D49) are gone: they are violations again."""
-    fam, op, chk = case["fam"], case["op"], sig.get("check")
-    lazy = sig["self_kind"] == "lazy"
-    if not lazy:
-        return "none"
-    if fam == "ternary":
-        if op == "where" and sig["keyrel"].split("/")[-1] != "same" and chk in ("value", "must-raise"):
-            return "lazy-where-different-key-sets"
-        if sig["tensor_nd"] and op != "where" and chk == "value":
-            return "lazy-stack-with-nd-tensor"
-        if sig.get("batch_differs") and chk == "value":
-            return "lazy-stack-with-broadcast-tensordict"
-    if fam == "binary":
-        if sig["tensor_nd"] and chk == "value":
-            return "lazy-stack-with-nd-tensor"
-        if sig.get("batch_differs") and chk == "value":
-            return "lazy-stack-with-broadcast-tensordict"
-        if (sig["has_default"] and isinstance(case["kw"].get("default"), dict)
-                and sig["keyrel"] in ("other-extra", "both") and chk == "value"):
-            return "lazy-stack-default-value-extra-keys"
-    if fam == "reduce":
-        if chk == "names" and sig["has_names"] and op == "norm":
-            return "lazy-norm-keeps-names"
-        if op in ("softmax", "logsumexp") and chk in ("value", "raises", "names"):
-            return "lazy-softmax-logsumexp-dim"
+    """input pattern of a defect recorded as `kind: known` in findings.d/C09.json.  There is none left: the patterns of
+    D18, D40-D49 and of the lazy-stack defects D50-D55 (fixes/C09/*.diff) are gone, each of them is a violation again."""
     return "none"
 
 
@@ -1062,7 +1037,10 @@ def loose_dtype(case):
     member-wise evaluation of lazy stacks see other ranks than the per-key reference, so only the dtype category
     (bool / integer / float) is compared on such cases"""
     dts = {e[2] for e in case["self"]["entries"]}
-    return any(o["k"] == "t" and len(o["shape"]) == 0 and (dts - {o.get("dtype", "float32")}) for o in case.get("args", []))
+    lazy1 = case["self"].get("kind", "td") == "lazy" and len(case["self"]["bs"]) <= 1
+    # a rank-1 tensor against a lazy stack with one batch dim: every member meets a 0-d slice (same promotion rule)
+    return any(o["k"] == "t" and (len(o["shape"]) == 0 or (lazy1 and len(o["shape"]) <= 1))
+               and (dts - {o.get("dtype", "float32")}) for o in case.get("args", []))
 
 
 def verdict(case, out, ref, sig, dens, inplace):
@@ -1527,8 +1505,7 @@ def model_covers(case):
     if not case["self"]["entries"]:
         return False                       # empty tensordicts: outside the property (no entry to speak about)
     if fam == "reduce":
-        if "lazy" in kinds:
-            return False                   # densified first (to_tensordict), names handling of that step not modelled
+        # a lazy stack is densified first (to_tensordict): Model/C09_Lazy.lazy_front = front on the same batch size / names
         if isinstance(case["dim"], list) and op in ("min", "max", "cummin", "cummax", "prod"):
             return False                   # torch itself takes a single dim there
         return op in REDUCTIONS_TUPLE + REDUCTIONS_INT + REDUCTIONS_CUM and not case.get("reduce")
@@ -1597,13 +1574,13 @@ def model_lines(case):
     if fam == "reduce":
         grp = ("tuple" if op in REDUCTIONS_TUPLE else "aminmax" if op in ("amin", "amax") else
                "single" if op in ("min", "max") else "cum" if op in REDUCTIONS_CUM else "prod")
-        names = s.get("names") if s.get("kind", "td") != "lazy" else None   # to_tensordict() of a lazy stack: no names
+        names = s.get("names")          # a lazy stack is densified first: to_tensordict() keeps batch size and names
         dim = case["dim"]
         d = (Sym("nodefault") if dim == "nodefault" else Sym("none") if dim is None else Sym("feature")
              if dim == "feature" else [Sym("tuple")] + list(dim) if isinstance(dim, list) else [Sym("int"), dim])
         kd = Sym("nodefault") if case["keepdim"] == "nodefault" else case["keepdim"]
         nm = Sym("none") if names is None else [Sym("some"), [n for n in names]]
-        return [sx([Sym("reduce"), Sym(grp), list(s["bs"]), nm, d, kd])]
+        return [sx([Sym("lazyreduce" if s.get("kind", "td") == "lazy" else "reduce"), Sym(grp), list(s["bs"]), nm, d, kd])]
     lines = []
     odens = [{p: None for p in traversal([tuple(e[0]) for e in o["entries"]])} if o["k"] in ("td", "dict") else None
              for o in case["args"]]
@@ -1963,6 +1940,181 @@ def check_dispatch(R):
                                                                                        "op": n}, io, mo)
 
 
+LAZY_BIN = ["add", "sub", "mul", "div", "maximum", "minimum", "bitwise_and", "logical_and"]
+
+
+def _member_orders(spec):
+    """leaf keys of every member of a lazy operand spec, in the member's traversal order"""
+    n = spec["bs"][spec["stack_dim"]]
+    mo = spec.get("member_orders")
+    base = [tuple(e[0]) for e in spec["entries"]]
+    return [traversal([tuple(q) for q in mo[i]]) if mo else traversal(base) for i in range(n)]
+
+
+def lazy_lines(case):
+    """protocol line for a case whose self is a lazy stack and whose dispatch Model/C09_Lazy.v transcribes
+    (None otherwise): ("binary" | "bcast" | "softmax", line)"""
+    fam, op, s = case["fam"], case["op"], case["self"]
+    if s.get("kind") != "lazy" or not s["entries"]:
+        return None
+    if fam == "reduce" and op == "softmax" and isinstance(case["dim"], int):
+        return ("softmax", sx([Sym("lazysoftmax"), len(s["bs"]), s["stack_dim"], case["dim"]]))
+    if fam != "binary" or op not in LAZY_BIN or "alpha" in case.get("kw", {}):
+        return None
+    o = case["args"][0]
+    okinds = [_okind_sx(o)]
+    nd = (o["k"] == "t" and len(o["shape"]) > 0) or (o["k"] == "td" and list(o["bs"]) != list(s["bs"]) and len(o["bs"]) > 0)
+    if nd:
+        return ("bcast", sx([Sym("lazybcast"), list(s["bs"]), s["stack_dim"], okinds]))
+    if o["k"] == "td" and (o.get("kind") != "lazy" or o.get("stack_dim") != s["stack_dim"]):
+        return None                         # lazy (op) dense of the same shape: outside the property's operand kinds
+    d = case.get("kw", {}).get("default")
+    dd = Sym("none") if d is None else Sym("inter") if d == "intersection" else Sym("val")
+    famy = Sym("loop") if op in BIN_LOOP else Sym("foreach")
+    ms = [[[pstr(k), 1000 * i + j] for j, k in enumerate(ks)] for i, ks in enumerate(_member_orders(s))]
+    if o["k"] == "td":
+        mo = [[[pstr(k), 100000 + 1000 * i + j] for j, k in enumerate(ks)] for i, ks in enumerate(_member_orders(o))]
+        osx = [Sym("lazy"), mo]
+    elif o["k"] in ("py",) or (o["k"] == "t" and not o["shape"]):
+        osx = Sym("scalar")
+    else:
+        return None
+    return ("binary", sx([Sym("lazybinary"), famy, dd, ms, osx]))
+
+
+def eval_lazy(case, kind, ans):
+    """what the model's answer predicts for the implementation: ("raise",) | ("ok", expectation) | ("skip", why)"""
+    T = _imports()
+    torch = T["torch"]
+    s = case["self"]
+    sd = s["stack_dim"]
+    if ans == "raise":
+        return ("raise",)
+    if kind == "softmax":
+        return ("ok", {"kind": "td" if ans[0] == "dense" else "lazy", "bs": list(s["bs"])})
+    if kind == "bcast":
+        if ans == "direct":
+            return ("skip", "direct")
+        if ans[0] == "member":
+            return ("ok", {"kind": "lazy", "bs": list(ans[1])}) if ans[2] != "raise" else ("raise",)
+        if ans[0] == "dense":
+            return ("raise",) if ans[1] == "raise" else ("ok", {"kind": "td", "bs": list(ans[1][1])})
+        return ("skip", str(ans[0]))
+    if ans[1][0] != "members":
+        return ("skip", "stray")
+    _, dself = build_td(dict(s, kind="td", locked=False))
+    o = case["args"][0]
+    oden = build_operand(dict(o, kind="td", locked=False) if o["k"] == "td" else o)[1]
+    dflt = case.get("kw", {}).get("default")
+    dv = build_operand(dflt)[1] if isinstance(dflt, dict) else None
+    sk, ok = _member_orders(s), (_member_orders(o) if o["k"] == "td" else None)
+    ref = bin_ref(case["op"], {})[0]
+
+    def fetch(i):
+        if i == -1:
+            return dv
+        if i >= 100000:
+            m, j = divmod(i - 100000, 1000)
+            return oden[ok[m][j]].select(sd, m)
+        m, j = divmod(i, 1000)
+        return dself[sk[m][j]].select(sd, m)
+    per_key = {}
+    try:
+        for m, ents in enumerate(ans[1][1]):
+            for (k, l, r) in ents:
+                x = fetch(l)
+                y = fetch(r[1]) if isinstance(r, list) else oden
+                per_key.setdefault(tuple(k.split(".")), {})[m] = ref(x, y)
+        n = s["bs"][sd]
+        out = {k: torch.stack([v[m] for m in range(n)], sd) for k, v in per_key.items() if len(v) == n}
+    except Exception as e:  # noqa: BLE001
+        return ("skip", "torch refuses: " + type(e).__name__)
+    if not out:
+        return ("none",)        # every member's _fast_apply(..., filter_empty=True) is empty: the result is None
+    exp = canon_expected(out, s["bs"])
+    exp["kind"] = "lazy"
+    return ("ok", exp)
+
+
+def check_lazy(R, cases, results):
+    """lazy-stack dispatch (Model/C09_Lazy.v) vs the implementation: fused binary path on member-indexed keys (values),
+    _maybe_broadcast_other's lazy branch and softmax (result container and batch size; values are the oracle's)"""
+    sel = []
+    for c, r in zip(cases, results):
+        ll = lazy_lines(c)
+        if ll is not None:
+            sel.append((c, r, ll))
+    answers = R.model([ll[1] for _, _, ll in sel]) if sel else []
+    for (c, r, ll), a in zip(sel, answers):
+        ev = eval_lazy(c, ll[0], a)
+        R.traces += 1
+        R.count("lazy-model:" + ll[0] + ":" + ev[0])
+        if ev[0] == "skip":
+            continue
+        d = None
+        if ev[0] == "none":
+            if not (r["status"] == "ok" and r["got"].get("type") == "NoneType"):
+                d = (brief(r["got"]) if r["status"] == "ok" else "raise", "None (empty result)")
+        elif ev[0] == "raise":
+            if r["status"] != "raise":
+                d = (brief(r["got"]), "raise")
+        elif r["status"] == "raise":
+            if not (c["fam"] == "binary" and r["refkind"] in ("illegal",)):
+                d = ("raise " + str(r["exc"]), brief(ev[1]))
+        else:
+            got, want = r["got"], ev[1]
+            if got.get("kind") != want["kind"] or got.get("bs") != want["bs"]:
+                d = (f"{got.get('kind')} {got.get('bs')}", f"{want['kind']} {want['bs']}")
+            elif "leaves" in want:
+                want["dtype_loose"] = True
+                dd = diff_collection(got, want)
+                if dd:
+                    d = (dd, "plan " + brief(want))
+        if d is not None:
+            R.mismatch("lazy:" + ll[0] + ":" + c["op"], c, d[0], d[1])
+    # element level: the slice a member hands to torch, read through real tensors
+    T = _imports()
+    torch = T["torch"]
+    from tensordict.utils import expand_as_right
+    rng = R.rng
+    specs, lines = [], []
+    for _ in range(200 if R.quick else 4000):
+        B = [rng.choice([1, 2, 3]) for _ in range(rng.randrange(1, 4))]
+        sshape = [(1 if rng.random() < 0.4 else b) for b in B][rng.randrange(0, len(B) + 1):]
+        sd = rng.randrange(len(B))
+        i = rng.randrange(B[sd])
+        feat = [rng.choice([1, 2, 3]) for _ in range(rng.randrange(0, 3))]
+        Bm = B[:sd] + B[sd + 1:]
+        pos = [rng.randrange(d) for d in Bm + feat]
+        specs.append((sshape, B, sd, i, feat, pos))
+        lines.append(sx([Sym("memberview"), sshape, B, sd, i, feat, pos]))
+    for (sshape, B, sd, i, feat, pos), a in zip(specs, R.model(lines)):
+        n = 1
+        for d in sshape:
+            n *= d
+        t = torch.arange(n).reshape(sshape)
+        Bm = B[:sd] + B[sd + 1:]
+
+        def real():
+            sl = t.expand(B).unbind(sd)[i]
+            v = expand_as_right(sl.expand(Bm), torch.zeros(Bm + feat)) if Bm else sl
+            return int(v[tuple(pos)]) if Bm else int(v)
+        impl = call(real)
+        io = impl[1] if impl[0] == "ok" else "raise"
+        mo = "raise" if a == "raise" else (int(t[tuple(a[1][1])]) if len(a[1][1]) == len(sshape) else "bad-index")
+        R.case(("memberview", tuple(sshape), tuple(B), sd, i, tuple(feat), tuple(pos)), nontrivial=len(B) > 1)
+        R.count("memberview")
+        R.traces += 1
+        if io != mo:
+            R.mismatch("lazy member operand view", {"tensor": sshape, "batch": B, "stack_dim": sd, "member": i, "feat": feat, "index": pos}, io, mo)
+        # oracle, independent of the model: the element the dense stack reads at the same position
+        full = pos[:sd] + [i] + pos[sd:]
+        want = int(left_align(t, B, len(B) + len(feat)).expand(B + feat)[tuple(full)])
+        if io != "raise" and io != want:
+            R.oracle_fail("lazy-broadcast-left", {"tensor": sshape, "batch": B, "stack_dim": sd, "member": i, "feat": feat, "index": pos},
+                          {"got": io, "want": want}, {"site": "lazy member slice", "pattern": "none"})
+
+
 def main(R):
     R.rule = ("cases = corpus + every spelling found by reflection (x td/lazy/tensorclass x operand kinds) + random cases "
               "(45% binary, 10% unary, 20% ternary, 25% reductions); a case is distinct by its full JSON description and "
@@ -2038,6 +2190,7 @@ def main(R):
     if ok:
         check_views(R)
         check_dispatch(R)
+        check_lazy(R, cases, results)
     R.extra["cases_with_model_plan"] = sum(1 for ix in idx if ix is not None)
 
 
